@@ -1009,37 +1009,37 @@ class Constraints:
 
     @classmethod
     def gt(cls, value, gt):
-        if value <= gt:
+        if not value > gt:      # (not `value <= gt`: a NaN compares False both ways and is not greater)
             raise ValueError
         return value
 
     @classmethod
     def ge(cls, value, ge):
-        if value < ge:
+        if not value >= ge:
             raise ValueError
         return value
 
     @classmethod
     def lax_ge(cls, value, ge):
-        if value < ge:
+        if not value >= ge:
             return ge
         return value
 
     @classmethod
     def lt(cls, value, lt):
-        if value >= lt:
+        if not value < lt:
             raise ValueError
         return value
 
     @classmethod
     def le(cls, value, le):
-        if value > le:
+        if not value <= le:
             raise ValueError
         return value
 
     @classmethod
     def lax_le(cls, value, le):
-        if value > le:
+        if not value <= le:
             return le
         return value
 
